@@ -142,7 +142,13 @@ fn amount() -> impl Strategy<Value = u64> {
 }
 
 fn seed_bytes() -> impl Strategy<Value = Vec<u8>> {
-	prop::collection::vec(any::<u8>(), 16..=64)
+	// from_seed takes any byte string: the usual 16..=64 bytes, shorter ones, and seeds longer than
+	// one SHA-512 half-block / the 64 bytes of a mnemonic seed (whose tail must count as well)
+	prop_oneof![
+		6 => prop::collection::vec(any::<u8>(), 16..=64),
+		1 => prop::collection::vec(any::<u8>(), 1..16),
+		3 => prop::collection::vec(any::<u8>(), 65..=200),
+	]
 }
 
 /// a seed and a different seed: independent, one bit apart, or one byte longer/shorter
@@ -158,8 +164,8 @@ fn seed_pair() -> impl Strategy<Value = (Vec<u8>, Vec<u8>)> {
 			}
 			_ => {
 				let mut o = s.clone();
-				if o.len() < 64 {
-					o.push(0);
+				if bit % 2 == 0 || o.len() < 2 {
+					o.push((bit >> 8) as u8);
 				} else {
 					o.pop();
 				}
@@ -1154,7 +1160,7 @@ pub fn check_reward(ctx: &Ctx, c: &RewardCase, counting: bool) -> PResult {
 pub fn run(ctx: &Ctx) -> HResult<()> {
 	init_global();
 	let ev = &ctx.ev;
-	ev.rule("proptest cases: (seed 16-64 bytes + a different seed [independent / one bit apart / one byte longer], path depth 0-4 with hardened and non-hardened 32-bit words, amount from {0,1,2^32,2^52,2^64-1,2^k+-1,random}, switch mode, builder generation, view-key depth and construction, bit to flip); arithmetic cases: scalars below the group order incl. 1..16, N-1..N-16, zero, cancelling operands, optional key-id terms; builder cases: 1-3 wanted inputs, 0-3 (+1-2 receiver) outputs, fee 1..2^40-1, input values derived so the plan balances; non-trivial = proof/reward case with depth >= 2 and non-zero amount, or builder case with >= 2 outputs; distinct by (part, depth, hardened pattern, amount class, switch, builder generation) resp. (kind, #inputs, output amount classes, output path patterns, generation, kernel type)");
+	ev.rule("proptest cases: (seed 1-200 bytes, mostly 16-64 + a different seed [independent / one bit apart anywhere / one byte longer or shorter], path depth 0-4 with hardened and non-hardened 32-bit words, amount from {0,1,2^32,2^52,2^64-1,2^k+-1,random}, switch mode, builder generation, view-key depth and construction, bit to flip); arithmetic cases: scalars below the group order incl. 1..16, N-1..N-16, zero, cancelling operands, optional key-id terms; builder cases: 1-3 wanted inputs, 0-3 (+1-2 receiver) outputs, fee 1..2^40-1, input values derived so the plan balances; non-trivial = proof/reward case with depth >= 2 and non-zero amount, or builder case with >= 2 outputs; distinct by (part, depth, hardened pattern, amount class, switch, builder generation) resp. (kind, #inputs, output amount classes, output path patterns, generation, kernel type)");
 	ev.assume("libsecp256k1-zkp point arithmetic (commit, commit_sum, verify_commit_sum) and bulletproof verification are trusted; the reference for scalar sums is the harness's own arithmetic modulo the group order");
 	ev.assume("LegacyProofBuilder is exercised only at depth 3 with the regular switch: its message carries neither depth nor switch type and check_output hard-codes both (core/src/libtx/proof.rs:324,332)");
 	ev.assume("ViewKey recovery is asserted only for SwitchCommitmentType::None and a non-hardened path suffix below the view key: ViewKey::commit returns Err(SwitchCommitment) for the regular switch (keychain/src/view_key.rs:190) and check_output returns None on a hardened step (proof.rs:418); elsewhere only 'no different triple' is asserted");
